@@ -1074,7 +1074,6 @@ func E11SVGUnits(c *core.Ctx, r *core.Report) {
 		{"inverse factor", "$s.width,$s.height=$w*96.0/25.4,$h*96.0/25.4", "init must convert the millimetre size back to pixels with the inverse factor 96/25.4 (percentages resolve against it)"},
 		{"y-down", "$s.ctx.SetCoordSystem(CartesianIV)", "SVG's y axis points down: the importer must select CartesianIV"},
 		{"canvas size", "$s.c=New($w,$h)", "the canvas must be created with the millimetre size"},
-		{"viewBox scale", "Identity.Scale($w/($vb[2]-$vb[0]),$h/($vb[3]-$vb[1])).Translate(-$vb[0],-$vb[1])", "user units must be scaled by size/viewBox and shifted by the viewBox origin"},
 		{"pixel user units", "Identity.Scale(25.4/96.0,25.4/96.0)", "without a viewBox user units are pixels and must be scaled to millimetres"},
 	}
 	for _, ck := range checks {
@@ -1084,6 +1083,93 @@ func E11SVGUnits(c *core.Ctx, r *core.Report) {
 		} else {
 			r.Fail("E11.svg-size", key, c.Pos(in.Pos()), ck.msg)
 		}
+	}
+	// viewBox scale, structurally: Scale(W/vb[2], H/vb[3]) then Translate(-vb[0], -vb[1]) — the viewBox
+	// attribute is `min-x min-y width height`, so elements 2 and 3 are extents, not maxima
+	{
+		key := "canvas.svgParser.init|viewBox scale"
+		info := p.TypesInfo
+		vbIndex := func(e ast.Expr) (int64, bool) {
+			ie, ok := core.Unparen(e).(*ast.IndexExpr)
+			if !ok {
+				return 0, false
+			}
+			if t := info.TypeOf(ie.X); t == nil || t.String() != "[4]float64" {
+				return 0, false
+			}
+			return core.ConstInt(info, ie.Index)
+		}
+		okScale, okTrans := false, false
+		ast.Inspect(in.Body, func(m ast.Node) bool {
+			call, ok := m.(*ast.CallExpr)
+			if !ok || len(call.Args) != 2 {
+				return true
+			}
+			se, ok := call.Fun.(*ast.SelectorExpr)
+			if !ok {
+				return true
+			}
+			switch se.Sel.Name {
+			case "Scale":
+				good := 0
+				for i, a := range call.Args {
+					if be, ok := core.Unparen(a).(*ast.BinaryExpr); ok && be.Op == token.QUO {
+						if k, ok := vbIndex(be.Y); ok && k == int64(2+i) {
+							good++
+						}
+					}
+				}
+				if good == 2 {
+					okScale = true
+				}
+			case "Translate":
+				good := 0
+				for i, a := range call.Args {
+					if u, ok := core.Unparen(a).(*ast.UnaryExpr); ok && u.Op == token.SUB {
+						if k, ok := vbIndex(u.X); ok && k == int64(i) {
+							good++
+						}
+					}
+				}
+				if good == 2 {
+					okTrans = true
+				}
+			}
+			return true
+		})
+		if okScale && okTrans {
+			r.OK("E11.svg-size", key, c.Pos(in.Pos()), "Scale(W/viewBox[2], H/viewBox[3]).Translate(-viewBox[0], -viewBox[1])")
+		} else {
+			r.Fail("E11.svg-size", key, c.Pos(in.Pos()), fmt.Sprintf("user units must be scaled by size/viewBox extent (elements 2 and 3 of `min-x min-y width height`) and shifted by the viewBox origin (scale recognised: %v, shift recognised: %v)", okScale, okTrans))
+		}
+		// no difference viewBox[2|3] - viewBox[0|1] anywhere in the file
+		nvb := 0
+		for _, fd2 := range core.AllFuncDecls(p) {
+			if fd2.Body == nil || !strings.HasSuffix(c.Fset.Position(fd2.Pos()).Filename, "/svg.go") {
+				continue
+			}
+			ast.Inspect(fd2.Body, func(m ast.Node) bool {
+				if ie, ok := m.(*ast.IndexExpr); ok {
+					if _, isVB := vbIndex(ie); isVB {
+						nvb++
+					}
+				}
+				be, ok := m.(*ast.BinaryExpr)
+				if !ok || be.Op != token.SUB {
+					return true
+				}
+				a, ok1 := vbIndex(be.X)
+				b, ok2 := vbIndex(be.Y)
+				if ok1 && ok2 && a >= 2 && b < 2 {
+					r.Fail("E11.viewbox-extent", fmt.Sprintf("canvas.%s|viewBox[%d] used as an extent, not as a maximum", core.FuncName(fd2), a), c.Pos(be.Pos()), fmt.Sprintf("`%s` treats the viewBox as min-x min-y max-x max-y; the attribute is `min-x min-y width height`, so with a non-zero origin the drawing is scaled by width/(width−min-x)", c.Src(be)))
+				}
+				return true
+			})
+		}
+		r.Rule("E11.viewbox-extent", "svg.go: the viewBox attribute is `min-x min-y width height`. Elements 2 and 3 of the parsed array are extents: no expression subtracts element 0 or 1 from them")
+		r.OK("E11.viewbox-extent", "canvas svg.go|viewBox elements 2 and 3 are never reduced by the origin", c.Pos(in.Pos()), fmt.Sprintf("%d uses of the viewBox array", nvb))
+		r.Count("E11.viewbox-uses", nvb)
+		r.Floor("E11.viewbox-uses", 8)
 	}
 	// elements
 	ds := core.MustFuncDecl(p, "svgParser.drawShape")
@@ -4734,4 +4820,236 @@ func E11GramConsistency(c *core.Ctx, r *core.Report) {
 	}
 	r.Count("E11.gram-tests", n)
 	r.Floor("E11.gram-tests", 2)
+}
+
+// E11AdvanceAxis: a glyph's laid-out advance is compared with the font's advance of the same axis.
+func E11AdvanceAxis(c *core.Ctx, r *core.Report) {
+	r.Rule("E11.advance-axis", "package canvas, text and the PDF writer: where a laid-out glyph advance (field XAdvance or YAdvance of a Glyph) is compared with or subtracted from an advance looked up in the font, the axes agree: XAdvance goes with SFNT.GlyphAdvance (hmtx), YAdvance with SFNT.GlyphVerticalAdvance (vmtx, one em without it). The PDF TJ adjustment is the difference between the two; taking the vertical one against the horizontal font advance over-advances every upright glyph of vertical text by the difference of its two advances, and the PDF text no longer ends where the layout and the path rendering put it")
+	n := 0
+	for _, rel := range []string{"", "text", "renderers/pdf"} {
+		p := c.MustPkg(rel)
+		info := p.TypesInfo
+		for _, fd := range core.AllFuncDecls(p) {
+			if fd.Body == nil || strings.HasSuffix(c.Fset.Position(fd.Pos()).Filename, "_test.go") {
+				continue
+			}
+			fname := p.Types.Name() + "." + core.FuncName(fd)
+			callAxis := func(e ast.Node) string {
+				ax := ""
+				ast.Inspect(e, func(k ast.Node) bool {
+					if call, ok := k.(*ast.CallExpr); ok {
+						if se, ok := call.Fun.(*ast.SelectorExpr); ok {
+							switch se.Sel.Name {
+							case "GlyphAdvance":
+								if ax == "" || ax == "h" {
+									ax = "h"
+								} else {
+									ax = "mixed"
+								}
+							case "GlyphVerticalAdvance":
+								if ax == "" || ax == "v" {
+									ax = "v"
+								} else {
+									ax = "mixed"
+								}
+							}
+						}
+					}
+					return true
+				})
+				return ax
+			}
+			local := map[types.Object]string{}
+			ast.Inspect(fd.Body, func(m ast.Node) bool {
+				as, ok := m.(*ast.AssignStmt)
+				if !ok || len(as.Lhs) != len(as.Rhs) {
+					return true
+				}
+				for i, l := range as.Lhs {
+					if id, ok := l.(*ast.Ident); ok {
+						if ax := callAxis(as.Rhs[i]); ax != "" {
+							o := core.ObjOf(info, id)
+							if old, seen := local[o]; seen && old != ax {
+								local[o] = "mixed"
+							} else {
+								local[o] = ax
+							}
+						}
+					}
+				}
+				return true
+			})
+			sideAxis := func(e ast.Expr) string {
+				ax := callAxis(e)
+				ast.Inspect(e, func(k ast.Node) bool {
+					if id, ok := k.(*ast.Ident); ok {
+						if a, ok := local[core.ObjOf(info, id)]; ok {
+							if ax == "" || ax == a {
+								ax = a
+							} else {
+								ax = "mixed"
+							}
+						}
+					}
+					return true
+				})
+				return ax
+			}
+			glyphAxis := func(e ast.Expr) string {
+				ax := ""
+				ast.Inspect(e, func(k ast.Node) bool {
+					se, ok := k.(*ast.SelectorExpr)
+					if !ok || (se.Sel.Name != "XAdvance" && se.Sel.Name != "YAdvance") {
+						return true
+					}
+					if t := info.TypeOf(se.X); t == nil || !strings.HasSuffix(strings.TrimPrefix(t.String(), "*"), "Glyph") {
+						return true
+					}
+					a := "h"
+					if se.Sel.Name == "YAdvance" {
+						a = "v"
+					}
+					if ax == "" || ax == a {
+						ax = a
+					} else {
+						ax = "mixed"
+					}
+					return true
+				})
+				return ax
+			}
+			ord := 0
+			ast.Inspect(fd.Body, func(m ast.Node) bool {
+				be, ok := m.(*ast.BinaryExpr)
+				if !ok {
+					return true
+				}
+				switch be.Op {
+				case token.SUB, token.ADD, token.NEQ, token.EQL, token.LSS, token.GTR, token.LEQ, token.GEQ:
+				default:
+					return true
+				}
+				for i, s := range []ast.Expr{be.X, be.Y} {
+					o := []ast.Expr{be.Y, be.X}[i]
+					ga := glyphAxis(s)
+					fa := sideAxis(o)
+					if ga == "" || ga == "mixed" || fa == "" || fa == "mixed" || glyphAxis(o) != "" {
+						continue
+					}
+					n++
+					ord++
+					key := fmt.Sprintf("%s|laid-out advance against font advance #%d: same axis", fname, ord)
+					if ga == fa {
+						r.OK("E11.advance-axis", key, c.Pos(be.Pos()), "")
+					} else {
+						names := map[string]string{"h": "horizontal (XAdvance / GlyphAdvance)", "v": "vertical (YAdvance / GlyphVerticalAdvance)"}
+						r.Fail("E11.advance-axis", key, c.Pos(be.Pos()), fmt.Sprintf("`%s` combines the %s laid-out advance with the %s advance of the font: the adjustment written for upright vertical glyphs is off by the difference between the glyph's two advances", c.Src(be), names[ga], names[fa]))
+					}
+					return false
+				}
+				return true
+			})
+		}
+	}
+	r.Count("E11.advance-comparisons", n)
+	r.Floor("E11.advance-comparisons", 2)
+}
+
+// E11DashPairTogether: the canonical dash array does not leave a function without its canonical offset.
+func E11DashPairTogether(c *core.Ctx, r *core.Report) {
+	r.Rule("E11.dash-pair", "dashCanonical rewrites a dash pattern and its offset together: the canonical array starts at a different phase than the one given (a leading zero-length dash or merged neighbours move the start), and only the pair (offset', d') is equivalent to (offset, d). A function that calls it may use the pair internally, but if it hands the canonical array out (returns it, other than as the empty `d[:0]`) it must hand out the canonical offset with it. checkDash returned d' alone and DrawPath combined it with the original offset: SetDashes(0, 0,2,3,1) was drawn as `3 3` starting at 0 instead of at 2")
+	p := c.MustPkg("")
+	info := p.TypesInfo
+	n := 0
+	for _, fd := range core.AllFuncDecls(p) {
+		if fd.Body == nil || strings.HasSuffix(c.Fset.Position(fd.Pos()).Filename, "_test.go") || core.FuncName(fd) == "dashCanonical" {
+			continue
+		}
+		var offObj, arrObj types.Object
+		ast.Inspect(fd.Body, func(m ast.Node) bool {
+			as, ok := m.(*ast.AssignStmt)
+			if !ok || len(as.Lhs) != 2 || len(as.Rhs) != 1 {
+				return true
+			}
+			call, ok := as.Rhs[0].(*ast.CallExpr)
+			if !ok {
+				return true
+			}
+			if f := core.CalleeOf(info, call); f == nil || f.Name() != "dashCanonical" || f.Pkg() != p.Types {
+				return true
+			}
+			if id, ok := as.Lhs[0].(*ast.Ident); ok {
+				offObj = core.ObjOf(info, id)
+			}
+			if id, ok := as.Lhs[1].(*ast.Ident); ok {
+				arrObj = core.ObjOf(info, id)
+			}
+			return true
+		})
+		if arrObj == nil {
+			continue
+		}
+		n++
+		fname := "canvas." + core.FuncName(fd)
+		key := fname + "|canonical dash array leaves the function only together with the canonical offset"
+		bad := token.NoPos
+		// returns under `if len(arr) == 0` hand out an empty array, which has no phase
+		emptyGuard := map[*ast.ReturnStmt]bool{}
+		ast.Inspect(fd.Body, func(m ast.Node) bool {
+			is, ok := m.(*ast.IfStmt)
+			if !ok {
+				return true
+			}
+			be, ok := core.Unparen(is.Cond).(*ast.BinaryExpr)
+			if !ok || be.Op != token.EQL {
+				return true
+			}
+			call, ok := core.Unparen(be.X).(*ast.CallExpr)
+			if !ok || len(call.Args) != 1 {
+				return true
+			}
+			if f, ok := call.Fun.(*ast.Ident); !ok || f.Name != "len" {
+				return true
+			}
+			if id, ok := core.Unparen(call.Args[0]).(*ast.Ident); !ok || core.ObjOf(info, id) != arrObj {
+				return true
+			}
+			if v, ok := core.ConstInt(info, be.Y); !ok || v != 0 {
+				return true
+			}
+			for _, st := range is.Body.List {
+				if rs, ok := st.(*ast.ReturnStmt); ok {
+					emptyGuard[rs] = true
+				}
+			}
+			return true
+		})
+		ast.Inspect(fd.Body, func(m ast.Node) bool {
+			rs, ok := m.(*ast.ReturnStmt)
+			if !ok || emptyGuard[rs] {
+				return true
+			}
+			returnsArr, returnsOff := false, false
+			for _, res := range rs.Results {
+				if id, ok := core.Unparen(res).(*ast.Ident); ok {
+					if o := core.ObjOf(info, id); o == arrObj {
+						returnsArr = true
+					} else if o == offObj && offObj != nil {
+						returnsOff = true
+					}
+				}
+			}
+			if returnsArr && !returnsOff {
+				bad = rs.Pos()
+			}
+			return true
+		})
+		if bad != token.NoPos {
+			r.Fail("E11.dash-pair", key, c.Pos(bad), "the array canonicalised by dashCanonical is returned without the offset that belongs to it: the caller combines it with the original offset and the pattern starts at the wrong phase")
+		} else {
+			r.OK("E11.dash-pair", key, c.Pos(fd.Pos()), "")
+		}
+	}
+	r.Count("E11.dash-canonical-callers", n)
+	r.Floor("E11.dash-canonical-callers", 2)
 }
